@@ -1211,6 +1211,70 @@ fn main() {
     let wall_iii = t_iii.elapsed().as_secs_f64();
     let _ = std::fs::remove_dir_all(scratch_root());
 
+    // ---- part (ii-c): concurrent removals. evict_node takes &self, so two removals of the same entry (eviction by the
+    // maintenance loop and by the security coordinator, say) can run interleaved at the scheduling points of the slot
+    // release path (verif-hooks yields). However they interleave, the entry's slots are returned exactly once.
+    let t_iic = std::time::Instant::now();
+    let mut iic_steps = 0u64;
+    {
+        let rt = tokio::runtime::Builder::new_current_thread().enable_all().build().unwrap();
+        for yields in [1u32, 2, 3] {
+            for (fam, ips) in [("ipv4", ["10.9.1.1", "10.9.1.2", "10.9.1.3", "10.9.1.4", "10.9.1.5"]), ("ipv6", ["2001:db8:9:1::1", "2001:db8:9:2::1", "2001:db8:9:3::1", "2001:db8:9:4::1", "2001:db8:9:5::1"])] {
+                for removers in [2usize, 3] {
+                    rt.block_on(async {
+                        saorsa_core::verif_hooks::set_sched_yields(yields);
+                        // cap of the shared level: /24 = 3 (IPv4), /48 = 3 (IPv6, distinct /64s)
+                        let mk = |k: usize| NodeInfo { id: NodeId::from_bytes(idb(0x80 >> k)), address: SocketAddr::new(ips[k].parse().unwrap(), 9000).to_string(), last_seen: SystemTime::UNIX_EPOCH + Duration::from_secs(1_700_000_000), capacity: NodeCapacity::default() };
+                        // add_node takes &mut self: build the table before sharing the engine
+                        let mut admitted = Vec::new();
+                        let mut eng = fresh_engine().await;
+                        for k in 0..3 {
+                            admitted.push(eng.add_node(mk(k)).await.is_ok());
+                        }
+                        let fourth_refused_before = eng.add_node(mk(3)).await.is_err();
+                        let eng = std::sync::Arc::new(eng);
+                        let victim = NodeId::from_bytes(idb(0x80));
+                        let mut hs = Vec::new();
+                        for _ in 0..removers {
+                            let (e2, v2) = (eng.clone(), victim.clone());
+                            hs.push(tokio::spawn(async move { e2.evict_node(&v2, EvictionReason::Stale).await.is_ok() }));
+                        }
+                        for h in hs {
+                            let _ = h.await;
+                        }
+                        saorsa_core::verif_hooks::set_sched_yields(0);
+                        let mut eng = match std::sync::Arc::try_unwrap(eng) {
+                            Ok(x) => x,
+                            Err(_) => {
+                                run.machinery_error("engine still shared after the removers finished");
+                                return;
+                            }
+                        };
+                        let fourth = eng.add_node(mk(3)).await.is_ok();
+                        let fifth = eng.add_node(mk(4)).await.is_ok();
+                        iic_steps += 1;
+                        cx.distinct.eval();
+                        cx.distinct.outcome(&("concurrent-evict", fam, removers, yields, fourth, fifth));
+                        let wit = json!({"part": "DhtCoreEngine, concurrent removals", "admitted_first": admitted, "fourth_refused_while_full": fourth_refused_before, "concurrent_evict_node_calls_on_the_first_peer": removers,
+                                         "yields_per_scheduling_point": yields, "then_fourth_admitted": fourth, "then_fifth_admitted": fifth, "addresses": ips});
+                        if admitted.iter().all(|a| *a) && fourth_refused_before {
+                            if !fourth {
+                                run.violation_lazy("C13.release", feats(&[("entry", "DhtCoreEngine::evict_node x N concurrently".into()), ("family", fam.into()), ("shape", "slot-not-returned".into())]), || (wit.clone(), "after concurrent evictions of one peer its slot was not returned".to_string()));
+                            } else if fifth {
+                                run.violation_lazy("C13.cap", feats(&[("entry", "DhtCoreEngine::evict_node x N concurrently".into()), ("family", fam.into()), ("level", "shared-subnet".into()), ("shape", "slots-returned-more-than-once".into())]), || (wit.clone(), "concurrent evictions of ONE peer freed more than one slot: the subnet now holds one node more than its cap".to_string()));
+                            }
+                        } else {
+                            run.info("concurrent-evict family: set-up did not fill the level (not judged)");
+                        }
+                    });
+                }
+            }
+        }
+    }
+    let wall_iic = t_iic.elapsed().as_secs_f64();
+    states += iic_steps;
+    transitions += iic_steps;
+
     // ---- part (iv): integrated path. Peers dial a real node over the in-memory socket: accept loop ->
     // register_new_peer -> handle_peer_connected -> DhtCoreEngine::add_node with the library-rendered address.
     // The admitted sequence must equal what a fresh enforcer (verified against the counting reference in part
@@ -1317,7 +1381,7 @@ fn main() {
         ("distinct_nontrivial", json!(distinct.distinct())),
         ("rule", json!("evaluation = one admission / can_accept / stats / limit answer of the real object compared with the admitted-multiset reference; distinct = distinct (entry, family, attributes, expected, observed, blocking level) tuples")),
         ("bounds", json!({"jobs": job_reports, "all_jobs_reached_fixpoint": all_exhaustive, "full_bucket_script_steps": script_steps,
-                           "wall_s": {"i": wall_i, "ii": wall_ii, "iii": wall_iii, "iv": wall_iv}, "integrated_path_dials": iv_steps,
+                           "wall_s": {"i": wall_i, "ii": wall_ii, "ii-c": wall_iic, "iii": wall_iii, "iv": wall_iv}, "integrated_path_dials": iv_steps, "concurrent_removal_runs": iic_steps,
                            "note": "exhaustive = every job explored completely up to its stated depth bound (fix-point where the caps bound the state space)"})),
     ]);
     run.finish(
